@@ -24,6 +24,9 @@ func VerifLevel(gqm *GroupQuotaManager, name, parent string, dims []string) map[
 	}
 	for _, d := range dims {
 		rn := corev1.ResourceName(d)
+		if d == "gpu" {
+			rn = "nvidia.com/gpu"
+		}
 		list := []map[string]interface{}{}
 		if calc != nil {
 			tq := calc.totalResource[rn]
